@@ -13,6 +13,7 @@
                 itself does not terminate otherwise. *)
 From Coq Require Import List ZArith Bool QArith.
 From NT Require Import Sx Rose RandomTree RandomTreeProofs CaseC20.  (* CaseC20: keeps the correspondence entry point in the same build *)
+From NTGen Require Import Generated.
 Import ListNotations.
 Open Scope Z_scope.
 
@@ -203,6 +204,37 @@ Proof.
   refine (conj (def_wfb_ok _ H1) (conj (rank_okb_ok _ _ H2) (conj _ H4))). apply Nat.ltb_lt. exact H3.
 Qed.
 Print Assumptions C20_domain_checks.
+
+(* ------------------------------------------------------------------------ *)
+(* facts regenerated from the SOURCE TEXT of nutree/tree_generator.py on every run
+   (harness/gen_facts.py, ast only): the lexical structure the model mirrors.  A
+   change of the popped keys, the default count, the 1-based loop index, the macro
+   names, the separator, the order of the three merge sources, the comparison of the
+   skip test, or the set of random-module functions the file uses breaks this. *)
+Definition txt (l : list Z) : text := l.
+Theorem C20_source_facts :
+  TG_POPPED = [K_count; K_callback; K_factory] /\
+  (forall m, map fst (strip m) = filter (fun k => negb (existsb (fun q => text_eqb q k) TG_POPPED)) (map fst m)) /\
+  (forall s, Z.of_nat (fst (resolve_count None s)) = TG_COUNT_DEFAULT) /\
+  Z.of_nat (count_of VNone) = TG_COUNT_OR /\
+  (forall n, hd 0%nat (seq (Z.to_nat TG_IDX_BASE) (S n)) = 1%nat) /\
+  TG_MACROS = [(txt [105; 100; 120], txt [105]); (txt [104; 105; 101; 114; 95; 105; 100; 120], txt [112])] /\
+  TG_HIER_SEP = [DOT] /\
+  TG_MERGE_ORDER = [K_star; txt [110; 111; 100; 101; 95; 116; 121; 112; 101]; txt [115; 112; 101; 99]] /\
+  TG_SKIP_CMP = txt [76; 116] /\
+  TG_RANDOM_USES = TG_RANDOM_CALLS /\
+  TG_RANDOM_CALLS = [txt [114; 97; 110; 100; 111; 109]; txt [114; 97; 110; 100; 114; 97; 110; 103; 101];
+                     txt [115; 97; 109; 112; 108; 101]; txt [117; 110; 105; 102; 111; 114; 109]] /\
+  TG_RANGE_ARGS_OK = true /\ TG_DATE_OK = true /\ TG_ROOT = K_root.
+Proof.
+  refine (conj eq_refl (conj _ (conj (fun _ => eq_refl) (conj eq_refl (conj (fun _ => eq_refl)
+          (conj eq_refl (conj eq_refl (conj eq_refl (conj eq_refl (conj eq_refl (conj eq_refl
+          (conj eq_refl (conj eq_refl eq_refl))))))))))))).
+  intros m. rewrite keys_strip. apply filter_ext. intros k.
+  unfold special, K_count, K_callback, K_factory. cbn [existsb TG_POPPED].
+  repeat match goal with |- context [text_eqb ?a k] => destruct (text_eqb a k) end; reflexivity.
+Qed.
+Print Assumptions C20_source_facts.
 
 (* ------------------------------------------------------------------------ *)
 (* non-vacuity: the suite's own definition (test_simple) is inside the domain, and
